@@ -854,3 +854,113 @@ func (c *Ctx) checkNdigits(rule string) {
 	c.check(ok, rule, key, fn.Pos(), "counts decimal digits (1, then +1 per division by 10 while the quotient is non-zero)",
 		fmt.Sprintf("ndigits does not count decimal digits (starts at 1: %v, +1 per step: %v, constants %v): the zero padding of bucket ids is too narrow for some bucket counts and the ids no longer sort in bound order", initOne, stepOne, have))
 }
+
+// checkConfiguredDestinations (O9): Configuration.NewReporter emits to the configured HostPorts list
+// as it is, or - only when that list is empty - to the single HostPort; never to a list assembled from
+// both (a server named by both settings would receive every batch twice: each value then appears in two
+// emitted batches).
+func (c *Ctx) checkConfiguredDestinations(rule string) {
+	const pk = "m3"
+	fn := c.fn(pk, "Configuration", "NewReporter")
+	fOpt := c.field(pk, "Options", "HostPorts")
+	fHPs, fHP := c.field(pk, "Configuration", "HostPorts"), c.field(pk, "Configuration", "HostPort")
+	if fn == nil || fOpt == nil || fHPs == nil || fHP == nil {
+		c.missing(rule, "m3.Configuration.NewReporter / Options.HostPorts / Configuration.HostPort(s)")
+		return
+	}
+	key := c.fnKey(fn)
+	c.sawFunc(key)
+	var stores []*ssa.Store
+	instrsOf(fn, func(in ssa.Instruction) {
+		if st, ok := in.(*ssa.Store); ok {
+			if f, _ := addrField(st.Addr); f == fOpt {
+				stores = append(stores, st)
+			}
+		}
+	})
+	if len(stores) == 0 {
+		c.bad(rule, key, fn.Pos(), "Options.HostPorts is not set from the configuration")
+		return
+	}
+	var why string
+	var at ssa.Instruction
+	var leaf func(v ssa.Value, g *ssa.Function, depth int, seen map[ssa.Value]bool) bool
+	leaf = func(v ssa.Value, g *ssa.Function, depth int, seen map[ssa.Value]bool) bool {
+		v = canon(stripConv(v))
+		if depth == 0 {
+			why = "its origin could not be traced"
+			return false
+		}
+		if seen[v] {
+			return true
+		}
+		seen[v] = true
+		if in, ok := v.(ssa.Instruction); ok {
+			at = in
+		}
+		switch x := v.(type) {
+		case *ssa.Phi:
+			for _, e := range x.Edges {
+				if !leaf(e, g, depth-1, seen) {
+					return false
+				}
+			}
+			return true
+		case *ssa.UnOp, *ssa.Field:
+			if f, _ := loadedField(v); f == fHPs {
+				return true
+			}
+		case *ssa.Slice:
+			// []string{c.HostPort}: a one-element array literal
+			if al, ok := x.X.(*ssa.Alloc); ok {
+				if arr, isArr := deref(al.Type()).Underlying().(*types.Array); isArr && arr.Len() == 1 && al.Referrers() != nil {
+					okElem := false
+					for _, r := range *al.Referrers() {
+						if ia, isIA := r.(*ssa.IndexAddr); isIA && ia.Referrers() != nil {
+							for _, u := range *ia.Referrers() {
+								if st, isSt := u.(*ssa.Store); isSt {
+									if f, _ := loadedField(stripConv(st.Val)); f == fHP {
+										okElem = true
+									}
+								}
+							}
+						}
+					}
+					if okElem {
+						return true
+					}
+				}
+			}
+		case *ssa.Call:
+			if isBuiltin(x, "append") {
+				why = "the destination list is assembled with append (HostPort added to HostPorts, or the other way round)"
+				return false
+			}
+			if h := staticCallee(x); h != nil && h.Pkg == fn.Pkg && h.Blocks != nil {
+				for _, r := range returnsOf(h) {
+					for _, va := range resultValues(r, 0) {
+						if !leaf(va.Val, h, depth-1, seen) {
+							return false
+						}
+					}
+				}
+				return true
+			}
+		}
+		if why == "" {
+			why = fmt.Sprintf("it is neither the configured HostPorts list nor the one-element list {HostPort} (%T)", v)
+		}
+		return false
+	}
+	for _, st := range stores {
+		if !leaf(st.Val, fn, 8, map[ssa.Value]bool{}) {
+			pos := st.Pos()
+			if at != nil && at.Pos().IsValid() {
+				pos = at.Pos()
+			}
+			c.bad(rule, key, pos, "the destinations handed to the reporter are not the configured HostPorts list or, for an empty list, the single HostPort: "+why+" - a server named by both settings receives every batch twice", c.describe(st))
+			return
+		}
+	}
+	c.ok(rule, key, stores[0].Pos(), "destinations = the configured HostPorts list, or {HostPort} when that list is empty")
+}
